@@ -617,7 +617,7 @@ def verdict(c):
 
 
 # features whose deviation is a recorded known finding today (fixed ones were removed: they must never be excused again)
-PRIORITY = ["aug-alias", "aug-complex-target", "aug", "del-tuple-target"]
+PRIORITY = []      # every C01 finding is fixed: nothing may be excused
 
 
 def classify(c, reason):
